@@ -150,6 +150,157 @@ theorem applyOcc_L (p : Params) (own : Own) (B : Book) (oc : Occ) :
         (oc.t.outs.zipIdx 0).filterMap (mkU own oc.t oc.bm) := by
   rw [applyOcc_eq, (depositFold_same ..).1, createFold_L, spendStep_L, recStep_L]
 
+-- ------------------------------------------------------------------ membership form
+
+theorem at_any_iff (is : List Inp) (u : UCoin) :
+    (is.any (fun i => UCoin.at i.tx i.idx u)) = true ↔ (u.tx, u.idx) ∈ is.map opOf := by
+  simp only [List.any_eq_true, List.mem_map, opOf, at_iff, Prod.mk.injEq]
+  constructor
+  · rintro ⟨i, hi, h1, h2⟩; exact ⟨i, hi, h1.symm, h2.symm⟩
+  · rintro ⟨i, hi, h1, h2⟩; exact ⟨i, hi, h1.symm, h2.symm⟩
+
+theorem spendFold_mem (p : Params) (t : Tx) (bm : BlockMeta) (is : List Inp) (k : Nat) (B : Book) (u : UCoin) :
+    u ∈ (foldIdx (spendB p t bm) is k B).L ↔ (u ∈ B.L ∧ (u.tx, u.idx) ∉ is.map opOf) := by
+  rw [spendFold_L, List.mem_filter, ← at_any_iff]
+  simp
+
+theorem mkU_eq_some (own : Own) (t : Tx) (bm : BlockMeta) (o : Out) (m : Nat) (u : UCoin) :
+    mkU own t bm (o, m) = some u ↔
+      (ownerOf own o = some (u.wallet, u.change) ∧ u.tx = t.id ∧ u.idx = m ∧ u.blk = bm ∧ u.cb = t.cb ∧ u.out = o) := by
+  unfold mkU
+  cases h : ownerOf own o with
+  | none => simp
+  | some wc =>
+    obtain ⟨w, ch⟩ := wc
+    obtain ⟨w', tx, idx, blk, cb, out, ch'⟩ := u
+    simp only [Option.map_some, Option.some.injEq, UCoin.mk.injEq, Prod.mk.injEq]
+    constructor
+    · rintro ⟨rfl, rfl, rfl, rfl, rfl, rfl, rfl⟩; exact ⟨⟨rfl, rfl⟩, rfl, rfl, rfl, rfl, rfl⟩
+    · rintro ⟨⟨rfl, rfl⟩, rfl, rfl, rfl, rfl, rfl⟩; exact ⟨rfl, rfl, rfl, rfl, rfl, rfl, rfl⟩
+
+theorem createFold_mem (p : Params) (own : Own) (t : Tx) (bm : BlockMeta) (os : List Out) (j : Nat) (B : Book)
+    (u : UCoin) :
+    u ∈ (foldIdx (createB p own t bm) os j B).L ↔
+      (u ∈ B.L ∨ ∃ m o, os[m]? = some o ∧ ownerOf own o = some (u.wallet, u.change) ∧
+        u = ⟨u.wallet, t.id, j + m, bm, t.cb, o, u.change⟩) := by
+  rw [createFold_L, List.mem_append, List.mem_filterMap]
+  apply or_congr Iff.rfl
+  constructor
+  · rintro ⟨⟨o, m⟩, hm, hu⟩
+    obtain ⟨hle, hget⟩ := List.mem_zipIdx_iff_le_and_getElem?_sub.1 hm
+    obtain ⟨h1, h2, h3, h4, h5, h6⟩ := (mkU_eq_some ..).1 hu
+    refine ⟨m - j, o, hget, h1, ?_⟩
+    obtain ⟨w', tx, idx, blk, cb, out, ch'⟩ := u
+    simp only at h2 h3 h4 h5 h6 hle
+    simp only [UCoin.mk.injEq, true_and]
+    exact ⟨h2, by omega, h4, h5, h6, trivial⟩
+  · rintro ⟨m, o, hget, h1, hu⟩
+    refine ⟨(o, j + m), List.mem_zipIdx_iff_le_and_getElem?_sub.2 ⟨by simp, by simpa using hget⟩, ?_⟩
+    rw [mkU_eq_some]
+    refine ⟨h1, ?_, ?_, ?_, ?_, ?_⟩ <;> (rw [hu])
+
+/-- zero-based form used for `applyOcc` -/
+theorem mem_created_iff (own : Own) (t : Tx) (bm : BlockMeta) (u : UCoin) :
+    u ∈ (t.outs.zipIdx 0).filterMap (mkU own t bm) ↔
+      (u.tx = t.id ∧ t.outs[u.idx]? = some u.out ∧ ownerOf own u.out = some (u.wallet, u.change) ∧
+        u.blk = bm ∧ u.cb = t.cb) := by
+  rw [List.mem_filterMap]
+  constructor
+  · rintro ⟨⟨o, m⟩, hm, hu⟩
+    have hget := List.mem_zipIdx_iff_getElem?.1 hm
+    obtain ⟨h1, h2, h3, h4, h5, h6⟩ := (mkU_eq_some ..).1 hu
+    simp only at hget
+    rw [h3, h6]
+    exact ⟨h2, hget, h1, h4, h5⟩
+  · rintro ⟨h2, hget, h1, h4, h5⟩
+    exact ⟨(u.out, u.idx), List.mem_zipIdx_iff_getElem?.2 hget, (mkU_eq_some ..).2 ⟨h1, h2, rfl, h4, h5, rfl⟩⟩
+
+-- ------------------------------------------------------------------ the steps of applyOcc on `credits`
+
+theorem spendB_credits_mono (p : Params) (t : Tx) (bm : BlockMeta) (B : Book) (k : Nat) (i : Inp) (ck : CredKey)
+    (h : (B.credits ck).isSome = true) : ((spendB p t bm B k i).credits ck).isSome = true := by
+  unfold spendB
+  cases hl : lookupU B.L i.tx i.idx with
+  | none => exact h
+  | some u =>
+    simp only [upd_apply]
+    by_cases hk : u.credKey = ck
+    · simp [hk]
+    · simp only [hk, if_false]; exact h
+
+theorem spendB_credits_back (p : Params) (t : Tx) (bm : BlockMeta) (B : Book) (k : Nat) (i : Inp) (ck : CredKey)
+    (h : ((spendB p t bm B k i).credits ck).isSome = true) :
+    (B.credits ck).isSome = true ∨ ∃ u ∈ B.L, ck = u.credKey := by
+  unfold spendB at h
+  cases hl : lookupU B.L i.tx i.idx with
+  | none => rw [hl] at h; exact Or.inl h
+  | some u =>
+    rw [hl] at h
+    simp only [upd_apply] at h
+    by_cases hk : u.credKey = ck
+    · exact Or.inr ⟨u, (lookupU_some hl).1, hk.symm⟩
+    · simp only [hk, if_false] at h; exact Or.inl h
+
+theorem spendFold_credits_mono (p : Params) (t : Tx) (bm : BlockMeta) (is : List Inp) (k : Nat) (B : Book)
+    (ck : CredKey) (h : (B.credits ck).isSome = true) :
+    ((foldIdx (spendB p t bm) is k B).credits ck).isSome = true := by
+  induction is generalizing k B with
+  | nil => exact h
+  | cons i is ih => rw [foldIdx_cons]; exact ih _ _ (spendB_credits_mono p t bm B k i ck h)
+
+theorem spendFold_credits_back (p : Params) (t : Tx) (bm : BlockMeta) (is : List Inp) (k : Nat) (B : Book)
+    (ck : CredKey) (h : ((foldIdx (spendB p t bm) is k B).credits ck).isSome = true) :
+    (B.credits ck).isSome = true ∨ ∃ u ∈ B.L, ck = u.credKey := by
+  induction is generalizing k B with
+  | nil => exact Or.inl h
+  | cons i is ih =>
+    rw [foldIdx_cons] at h
+    rcases ih _ _ h with h1 | ⟨u, hu, hk⟩
+    · exact spendB_credits_back p t bm B k i ck h1
+    · rw [spendB_L] at hu
+      exact Or.inr ⟨u, (List.mem_filter.1 hu).1, hk⟩
+
+theorem spendStep_credits_mono (p : Params) (B : Book) (oc : Occ) (ck : CredKey)
+    (h : (B.credits ck).isSome = true) : ((spendStep p B oc).credits ck).isSome = true := by
+  unfold spendStep
+  by_cases hc : oc.t.cb = true
+  · simp only [hc, if_true]; exact h
+  · simp only [hc]; exact spendFold_credits_mono _ _ _ _ _ _ _ h
+
+theorem spendStep_credits_back (p : Params) (B : Book) (oc : Occ) (ck : CredKey)
+    (h : ((spendStep p B oc).credits ck).isSome = true) :
+    (B.credits ck).isSome = true ∨ ∃ u ∈ B.L, ck = u.credKey := by
+  unfold spendStep at h
+  by_cases hc : oc.t.cb = true
+  · simp only [hc, if_true] at h; exact Or.inl h
+  · simp only [hc] at h; exact spendFold_credits_back _ _ _ _ _ _ _ h
+
+theorem createB_credits (p : Params) (own : Own) (t : Tx) (bm : BlockMeta) (B : Book) (j : Nat) (o : Out)
+    (ck : CredKey) :
+    ((createB p own t bm B j o).credits ck).isSome = true ↔
+      ((B.credits ck).isSome = true ∨ ((ownerOf own o).isSome = true ∧ ck = ⟨t.id, bm, j⟩)) := by
+  unfold createB
+  cases h : ownerOf own o with
+  | none => simp
+  | some wc =>
+    simp only [upd_apply, UCoin.credKey, Option.isSome_some, true_and]
+    by_cases hk : (⟨t.id, bm, j⟩ : CredKey) = ck
+    · simp [hk]
+    · have hk' : ¬ ck = ⟨t.id, bm, j⟩ := fun e => hk e.symm
+      simp [hk, hk']
+
+/-- the create fold writes a credit for every owned output and nothing else -/
+theorem createFold_credits (p : Params) (own : Own) (t : Tx) (bm : BlockMeta) (os : List Out) (j : Nat) (B : Book)
+    (ck : CredKey) :
+    ((foldIdx (createB p own t bm) os j B).credits ck).isSome = true ↔
+      ((B.credits ck).isSome = true ∨
+        ∃ om ∈ os.zipIdx j, (ownerOf own om.1).isSome = true ∧ ck = ⟨t.id, bm, om.2⟩) := by
+  induction os generalizing j B with
+  | nil => simp
+  | cons o os ih =>
+    rw [foldIdx_cons, ih, createB_credits, List.zipIdx_cons]
+    simp only [List.mem_cons, exists_eq_or_imp, or_assoc]
+
 -- ------------------------------------------------------------------ bookOf_L
 
 theorem mkU_toSCoin (own : Own) (t : Tx) (bm : BlockMeta) (os : List Out) (j : Nat) :
